@@ -13,7 +13,7 @@ import (
 func init() {
 	core.Register(&core.Monitor{
 		ID:        "C08",
-		Technique: "reference-model monitor (set comprehension over stencil offsets of the modular-shift reference) + symmetry relation",
+		Technique: "reference-model monitor (set comprehension over stencil offsets of the modular-shift reference) + symmetry relation + concurrent scenarios (4-64 goroutines issuing the same judged calls at once) + hostile scheduler widths",
 		Rule: "per case: a valid ID at zooms 0..35 (with emphasis on h in {0,1,2} where wrapped neighbours coincide and on the grid edges) for the 6/8/26 stencils, and a list of 1-5 voxels " +
 			"(adjacent, identical, straddling the x/y seam, far apart) with layer counts 0..4 for the N-layer query. Oracle: set equality with {shift_ref(id,o)}, exact counts 6/8/26/(2H+1)^2(2V+1)-1 and " +
 			"absence of the input where the stencil is narrower than the grid, len==|set| for the N-layer result, a in N(b) <=> b in N(a). Non-trivial = always (every case queries >= 4 stencils); distinct by (ID, list, layers).",
